@@ -50,7 +50,7 @@ FailAt(st, fp) == [ok |-> FALSE, pos |-> 0, ns |-> <<>>, st |-> [st EXCEPT !.far
 FailQ(st) == [ok |-> FALSE, pos |-> 0, ns |-> <<>>, st |-> st]
 
 \* conv: how the leaf converts ("str" "id" "int" "bool" "string"); grp: regex group span or <<0,0>>
-Leaf(txt, s, e, conv, sep) == [t |-> "leaf", txt |-> txt, full |-> txt, s |-> s, e |-> e, conv |-> conv, sep |-> sep]
+Leaf(txt, s, e, conv, sep) == [t |-> "leaf", txt |-> txt, full |-> txt, s |-> s, e |-> e, conv |-> conv, sep |-> sep, kw |-> FALSE]
 RuleN(name, kids) == [t |-> "rule", name |-> name, kids |-> kids]
 AsgN(attr, op, kids) == [t |-> "asg", attr |-> attr, op |-> op, kids |-> kids]
 
@@ -89,7 +89,7 @@ MatchStr(E, e, q) ==
       n == q + Len(lit)
   IN IF StartsWith(s, q, lit, ic)
         /\ (E.cfg.autokwd /\ KeywordLike(lit) => ~(n <= Len(s) /\ s[n] \in Word))
-     THEN TOk(n, <<Leaf(lit, q, n, "str", FALSE)>>)       \* the value is the literal as written in the grammar
+     THEN TOk(n, <<[Leaf(lit, q, n, "str", FALSE) EXCEPT !.kw = KeywordLike(lit)]>>)   \* the value is the literal as written in the grammar
      ELSE TNo
 
 \* regex of the shape  pre [set]{min,} post  with optionally the class repetition as group 1
